@@ -3,7 +3,7 @@
    Each is a plain alias of the definition the theorems are stated about. *)
 From Coq Require Import List NArith.
 From Coq.Strings Require Import Byte.
-From SP Require Import Bytes BaseX Encodings Rand.
+From SP Require Import Bytes BaseX Encodings Rand Params Msgpack Crypto Errors Packets Chunker Sign Verify Encrypt Decrypt Signcrypt.
 
 Definition m_byte_to_N := Byte.to_N.
 Definition m_bx_encode := BaseX.encode.
@@ -15,3 +15,18 @@ Definition m_bx_obl := BaseX.obl.
 Definition m_uint32n := Rand.uint32n.
 Definition m_shuffle_N : list N -> rng -> option (list N * rng) := Rand.shuffle.
 Definition m_fisher_yates_N : list N -> list nat -> list N := Rand.fisher_yates.
+
+(* ---- signing ---- *)
+Definition m_sign_attached_stream := Sign.sign_attached_stream.
+Definition m_sign_detached := Sign.sign_detached.
+Definition m_verify_stream := Verify.verify_stream.
+Definition m_verify_all := Verify.verify_all.
+Definition m_verify_detached := Verify.verify_detached.
+Definition m_mp_read := Msgpack.mp_read.
+Definition m_mp_encode := Msgpack.mp_encode.
+
+(* ---- encryption / signcryption ---- *)
+Definition m_seal_stream := Encrypt.seal_stream.
+Definition m_open_stream := Decrypt.open_stream.
+Definition m_signcrypt_seal_stream := Signcrypt.signcrypt_seal_stream.
+Definition m_signcrypt_open_stream := Signcrypt.signcrypt_open_stream.
